@@ -1,6 +1,7 @@
 (* C01 — certGenHandler: soundness, refusals, completeness, the strict reading refuted *)
 From Coq Require Import ZArith.
 From KM Require Import Base.Bytes Base.Tactics Model.Auth Model.Certgen Model.CertgenCases Proofs.CertgenSpec Proofs.CertgenAuth.
+From KM Require Model.Seal.
 Open Scope N_scope.
 
 Section Thms.
@@ -55,6 +56,50 @@ Proof.
   intro H. apply certgen_issued in H. destruct H as [S [level [iat [CA [SU [T [M _]]]]]]].
   split; [exact S|]. split; [|auto].
   exists level. split; [eapply check_auth_sound; eauto|apply sufficient_iff; exact SU].
+Qed.
+
+(* ---- which signers are loaded.  The fail-closed test looks at the main signer alone: without it
+   every request is answered 500, whatever else is loaded (the Ed25519 signer, CA certificates,
+   trusted peer keys), whatever the credential and the requested key type. *)
+Theorem sealed_refuses_everything st now lim q :
+  Seal.signer (s_keys st) = None -> certgen expand st now lim q = Refused 500.
+Proof. intro H. unfold certgen, s_sealed. rewrite H. reflexivity. Qed.
+
+(* ... and the Ed25519 signer is used only together with the main signer *)
+Theorem ed_signature_needs_main_signer st now lim q u c :
+  certgen expand st now lim q = Issued u c ->
+  Seal.signer (s_keys st) <> None.
+Proof.
+  intros H E. rewrite (sealed_refuses_everything st now lim q E) in H. discriminate.
+Qed.
+
+(* ---- the client address.  on_conn q blocks cn is the request q on a connection cn when the
+   presented certificate carries the netblocks `blocks`: forwarding headers are no input ... *)
+Theorem forwarding_headers_ignored st now lim q blocks peer xff xreal fw xff' xreal' fw' :
+  certgen expand st now lim (on_conn q blocks {| n_peer := peer; n_xff := xff; n_xreal := xreal; n_forwarded := fw |}) =
+  certgen expand st now lim (on_conn q blocks {| n_peer := peer; n_xff := xff'; n_xreal := xreal'; n_forwarded := fw' |}).
+Proof. reflexivity. Qed.
+
+(* ... and a certificate that is not a keymaster user certificate gets something signed only when
+   the TCP peer lies in one of its blocks *)
+Theorem ip_certificate_needs_peer_inside st now lim q blocks cn c u d :
+  q_tls q = Some c -> km_signed c = None ->
+  certgen expand st now lim (on_conn q blocks cn) = Issued u d ->
+  exists l b, blocks = Some l /\ In b l /\ in_block (n_peer cn) b = true.
+Proof.
+  intros TL KM H. apply certgen_issued in H. destruct H as [_ [level [iat [CA _]]]].
+  rewrite check_auth_any_eq in CA. unfold check_auth_any in CA.
+  cbn [auth_request on_conn r_get r_origin r_tls r_cred q_method q_origin q_tls q_cred] in CA.
+  rewrite TL in CA.
+  set (c' := with_ip_valid c (ip_valid blocks cn)) in CA.
+  assert (KM' : km_signed c' = None) by exact KM.
+  destruct (if match q_method q with HGet => true | _ => false end then None
+            else match q_origin q with BadOrigin => Some (Refuse 400) | CrossOrigin => Some (Refuse 401) | _ => None end) as [x|] eqn:CS.
+  - destruct (q_method q); destruct (q_origin q); try discriminate; inversion CS; subst; discriminate.
+  - rewrite KM' in CA. destruct (ip_restricted c') eqn:IP; try discriminate.
+    apply ip_restricted_ok in IP. destruct IP as [_ [V _]]. unfold c' in V. cbn in V.
+    unfold ip_valid in V. destruct blocks as [l|]; [|discriminate].
+    apply existsb_exists in V. destruct V as [b [Hb Hin]]. exists l, b. auto.
 Qed.
 
 (* a credential that proves only the password factor does not qualify unless "password" is listed *)
